@@ -216,3 +216,14 @@ prop("C11", lambda tier: [
      "every single key 0..1023 with destructor and value; every subset of size <=2/3 of 13 representative keys x destructor mask x NULL/non-NULL mask, on a private tree and key table; "
      "whole library on one worker: 4 key sets x {return, myth_exit, cancel+testcancel}",
      assumptions=["the unit harness #includes src/myth_tls_func.h and calls myth_tls_tree_set / myth_tls_tree_fini exactly as thread creation and exit do", "AddressSanitizer turns any read outside the 1024-entry key table into a verdict"])
+
+prop("C15", lambda tier: [
+        binc("c15", "UNIT_EXCLUDE=myth_bind_worker engine/build_unit.sh c15 harness/c15_config.c", "build/c15/c15 --stats {stats} --tier quick", "build/c15/c15 --stats {stats} --tier thorough",
+             "E3 seqmc (bounded exhaustive inputs and histories vs reference recogniser / model)", deadline=(150, 1500)),
+        e1("c15f", "harness/c15_fini.c")],
+     "every CPU-list string of length <=5/6 over \"019-:, \\nx\" plus structured long ones through the real parser vs an independent recogniser; every string of length <=3 over {0,1,7,-,+,' ',x} "
+     "(and unset) for MYTH_NUM_WORKERS / MYTH_DEF_STKSIZE / MYTH_BIND_WORKERS, selected MYTH_CPU_LIST values, one process each; every init/fini history of length <=4/5 over "
+     "{init_ex(1|2|3), init(), implicit init by create, fini, query}; worker counts 1..64; E1: myth_fini under schedule control with main possibly migrated",
+     assumptions=["reference recogniser for the grammar range(,range)*, range ::= a | a-b | a-b:c, numbers of <=6 digits compared exactly (longer literals: no crash / no hang only)",
+                  "an explicit myth_init_ex installs its attributes as the global attributes, which later implicit initialisations use (the library's documented global-attribute semantics)",
+                  "well-formed but unusable requests (1..32767-byte default stacks, more than 64 workers) are excluded as the property says"] + E1_ASSUME)
